@@ -1,4 +1,6 @@
 pub mod c01;
+pub mod c02;
+pub mod c11;
 pub mod replay;
 
 use crate::common::{Coverage, Ctx};
@@ -6,6 +8,10 @@ use crate::common::{Coverage, Ctx};
 pub fn dispatch(ctx: &Ctx) -> Option<Coverage> {
     Some(match ctx.prop.as_str() {
         "C01" => c01::run(ctx),
+        "C02" => c02::run_c02(ctx),
+        "C10" => c02::run_c10(ctx),
+        "C11" => c11::run_c11(ctx),
+        "C12" => c11::run_c12(ctx),
         _ => return None,
     })
 }
